@@ -895,6 +895,10 @@ def expected_callback_lines(prog, plan, history=None, reject=None):
         mod, it, impl, m = ms[pi_]
         c = p_["calls"][k]
         if reject is not None and reject(m, c):
+            # the call never reaches Rust: the foreign function object is destroyed unused
+            drops = ["cbdrop %d_%d_%s 0" % (p_["mid"], k, q[0]) for q in m["params"] if q[1][0] == "cb"]
+            if drops:
+                cside.append(sorted(drops))
             continue
         kk = accepted.get(pi_, 0)
         accepted[pi_] = kk + 1
